@@ -191,7 +191,18 @@ def rule_d(repo, chk):
     chk.ob('C05.d', ok, d, '_dictionarize keys a name by its tree name (falling back to the name object)')
     # every same-spelled token of every candidate module is examined
     lp = [n for n in own_nodes(f) if isinstance(n, ast.For) and 'get_used_names()' in norm(n.iter)]
-    ok = len(lp) == 1 and norm(lp[0].iter).endswith('.get(search_name, [])') and not loop_escapes(lp[0])
+    def examined_first(loop):
+        # a `continue` AFTER the token's candidate map was computed skips nothing that is examined (what happens to the map is the
+        # business of the obligations above); break/return, or a continue in front of the examination, lose tokens
+        idx = [i for i, st in enumerate(loop.body) if isinstance(st, ast.Assign) and call_name(st.value) == '_dictionarize']
+        for j in loop_escapes(loop):
+            if not isinstance(j, ast.Continue) or not idx:
+                return False
+            top = next((i for i, st in enumerate(loop.body) if any(x is j for x in ast.walk(st))), -1)
+            if top <= idx[0]:
+                return False
+        return True
+    ok = len(lp) == 1 and norm(lp[0].iter).endswith('.get(search_name, [])') and examined_first(lp[0])
     chk.ob('C05.d', ok, lp[0] if lp else f, 'every token spelled like the name is examined in every candidate module (no break/continue)')
 
 
@@ -238,9 +249,34 @@ def rule_f(repo, chk):
         chk.ob('C05.f', w is None, a, 'other modules are left out of the reference search only for parameters / on request', w or '')
 
 
+def rule_g(repo, chk):
+    chk.clause('C05.g', 'the keyword of a call argument (`f(kw=1)`) is linked to the parameter `kw` of EVERY signature of EVERY callable the callee '
+                        'may be: the named-argument branch of AbstractTreeName.goto walks all values, all signatures and all parameter names '
+                        'without leaving early (a rename of the parameter must reach the keyword whichever callable is meant)')
+    f = repo.find('jedi.inference.names', 'AbstractTreeName.goto')
+    loops = [n for n in own_nodes(f) if isinstance(n, ast.For) and any(isinstance(x, ast.Call) and call_name(x) == 'get_param_names' for x in ast.walk(n))]
+    outer = [l for l in loops if not any(l is not m and any(x is l for x in ast.walk(m)) for m in loops)]
+    comps = [n for n in own_nodes(f) if isinstance(n, (ast.ListComp, ast.GeneratorExp, ast.SetComp))
+             and any(isinstance(x, ast.Call) and call_name(x) == 'get_param_names' for x in ast.walk(n))
+             and not any(any(x is n for x in ast.walk(l)) for l in loops)]
+    chk.floor('C05.g', len(outer) + len(comps), 1, 'the walk over get_param_names() in AbstractTreeName.goto')
+    for l in outer:
+        esc = []
+        for m in [l] + [x for x in ast.walk(l) if isinstance(x, ast.For) and x is not l]:
+            esc += [j for j in loop_escapes(m, (ast.Break, ast.Return))]
+        chk.ob('C05.g', not esc, l, 'no break/return inside the walk over values x signatures x parameter names (every callable contributes its parameter)',
+               'leaves early at line %s' % sorted({e.lineno for e in esc}))
+        srcs = [norm(x.iter) for x in ast.walk(l) if isinstance(x, (ast.For, ast.comprehension))]
+        ok = any(s.endswith('.get_signatures()') for s in srcs) and any(s.endswith('.get_param_names()') for s in srcs)
+        chk.ob('C05.g', ok, l, 'the walk goes over value.get_signatures() and signature.get_param_names()', str(srcs))
+        cmp_ = [x for x in ast.walk(l) if isinstance(x, ast.Compare) and 'string_name' in norm(x)]
+        ok = len(cmp_) == 1 and isinstance(cmp_[0].ops[0], ast.Eq) and {norm(cmp_[0].left), norm(cmp_[0].comparators[0])} == {'param_name.string_name', 'name.value'}
+        chk.ob('C05.g', ok, l, 'a parameter is selected by equality of its string_name with the keyword\'s text', str([norm(c) for c in cmp_]))
+
+
 def describe(chk):
     chk.undecided('behaviour preservation of the renamed program, the partition property of get_references, the byte round trip (all run-time); '
                   'which modules are candidates (get_module_contexts_containing_name)')
 
 
-RULES = [('C05.a', rule_a), ('C05.b', rule_b), ('C05.c', rule_c), ('C05.d', rule_d), ('C05.e', rule_e), ('C05.f', rule_f)]
+RULES = [('C05.a', rule_a), ('C05.b', rule_b), ('C05.c', rule_c), ('C05.d', rule_d), ('C05.e', rule_e), ('C05.f', rule_f), ('C05.g', rule_g)]
